@@ -649,12 +649,11 @@ def compileString (s : PState) (mof ns : Nat) (filename : Option Nat) (e : Effec
     | some (f, m) => { s1 with file := some f, mof := some m }
     | none => s1
 
-/-- mirrors _mof_compiler.py: compile_embedded_value: embedded_objects is a list during the parse and is reset in
-    the `finally` clause whatever happens -/
-def compileEmbedded (s : PState) (mof ns : Nat) (e : Effect) (ok : Bool) : PState :=
+/-- mirrors _mof_compiler.py: compile_embedded_value: embedded_objects is a list during the parse; the `finally` clause
+    resets it and (after the fix) restores file/mof of the enclosing statement whatever happens -/
+def compileEmbedded (s : PState) (mof ns : Nat) (e : Effect) (_ok : Bool) : PState :=
   let s1 := applyEffect (compilePrologue s mof ns none) e
-  let s2 := if ok then { s1 with file := s.file, mof := s.mof } else s1
-  { s2 with embedded := none }
+  { s1 with file := s.file, mof := s.mof, embedded := none }
 
 inductive Call where
   | str (mof ns : Nat) (filename : Option Nat) (e : Effect) (ok : Bool)
